@@ -205,6 +205,28 @@ func (e *Engine) step(f *frame, it *item, ins ssa.Instruction) ([]branch, bool) 
 	case *ssa.ChangeType:
 		set(get(x.X))
 	case *ssa.Convert:
+		if isString(x.X.Type()) {
+			// []byte(s) for a string whose length is symbolic: one branch per feasible length
+			if sl, ok := x.Type().Underlying().(*types.Slice); ok {
+				if w, _, _ := intWidth(sl.Elem()); w == 8 {
+					if s := get(x.X).(*Str); s.Len().op != OpConst {
+						n := s.Len()
+						bs := s.bytesSlice()
+						var brs []branch
+						for k := 0; k <= s.Max(); k++ {
+							c := Eq(n, i64(k))
+							if c == FF {
+								continue
+							}
+							cells := append([]Value(nil), termsToVals(bs[:k])...)
+							o := st.alloc(ins, 100+k, cells, sl.Elem())
+							brs = append(brs, branch{cond: c, val: SliceV{o.id, 0, k, k}})
+						}
+						return brs, true
+					}
+				}
+			}
+		}
 		set(e.convert(st, ins, get(x.X), x.X.Type(), x.Type()))
 	case *ssa.Extract:
 		set(get(x.Tuple).(TupleV)[x.Index])
